@@ -76,7 +76,7 @@ def run(ctx):
         'arithmetic) were repaired by fix: commits; the rows now guard those repairs. Not decided: the arithmetic of blend.rs '
         '(enumerated in the evidence), and that an establishing comparison is arithmetically the right one beyond operands and direction.')
     # ---------------- Half 2
-    for n in ['I1', 'I2', 'I3', 'I4', 'I5', 'I6', 'I7', 'I8', 'I9', 'I10', 'I11', 'I12']:
+    for n in ['I1', 'I2', 'I3', 'I4', 'I5', 'I6', 'I7', 'I8', 'I9', 'I10', 'I11', 'I12', 'I13']:
         ok, why = I.get(n)
         ctx.inst('M', n, ok, '%s: %s' % (n, why), None, key='invariant|M|' + n)
 
